@@ -94,6 +94,25 @@ func main() {
 			}
 		}
 		fmt.Println("obligations", len(s.Obs), "bad", n, s.Analysed, time.Since(t0))
+	case "fn":
+		fi := p.Func(os.Args[2])
+		if fi == nil {
+			fmt.Println("no such function")
+			return
+		}
+		c := ir.NewCanon(p.Fset, fi.Pkg.TypesInfo, ir.Options{KeepNames: true, ParamNames: true})
+		tree := c.Func(fi.Decl)
+		fmt.Println(ir.Render(tree), c.Notes)
+	case "s":
+		rules.S1(rc)
+		rules.S2(rc)
+		rules.S3(rc)
+		rules.S5(rc)
+		rules.S7(rc)
+		rules.S9(rc)
+		for _, o := range s.Obs {
+			fmt.Println(o.V, o.Rule, o.Key, o.Detail)
+		}
 	case "l0":
 		rules.L0(rc, nil)
 		for _, o := range s.Obs {
